@@ -56,7 +56,13 @@ SCALAR_RHS = {
     "npi64": ["raw", 1, "npi64"],
     "npf32": ["raw", 0.5, "npf32"],
     "arr0d": ["raw", 0.25, "arr0d"],
+    # narrow NumPy scalar types: the relation is between *numbers*, not between values squeezed into the operand's dtype
+    "npf16": ["raw", 2048, "npf16"],
+    "npu8": ["raw", 5, "npu8"],
+    "npi8": ["raw", 100, "npi8"],
+    "npu16": ["raw", 40000, "npu16"],
 }
+NARROW_POINTS = [2049.0, 3.0, 200.0, 40001.5, -7.0, 2047.0]
 RHS = {
     "S": {**SCALAR_RHS, "Variable": _b, "Parameter": _p, "Expression": ["bin", "-", ["bin", "**", _b, ["raw", 2, "int"]], ["raw", 1.0, "float"]],
           "Constant": ["const", 1.5, "float"]},
@@ -91,7 +97,7 @@ def info(tier):
         "constraints, is_satisfied and violation at 4 points off the boundary, and the SciPy constraint dicts captured at "
         "the minimize seam probed at 6 points (fun sign pattern, fun value, jac vs jet gradient); distinct = canonical "
         "relation hashes" % len(matrix_cases()),
-        "required_cells": sorted({c for c, _, _ in matrix_cases()}),
+        "required_cells": sorted({c for c, _, _ in matrix_cases()}) + ["multi-relation-problem"],
         "assumptions": ["probe points keep |lhs-rhs| >= 1e-3 (the relation is decided away from the boundary)",
                         "a relation the API rejects with an exception is 'unsupported' unless it is a shape mismatch, where rejection is required"],
     }
@@ -167,12 +173,15 @@ def run_rel(rec, rng, cell, rel, decls, expect_mismatch, seams):
     # points off the boundary
     pts = []
     tries = 0
-    while len(pts) < 4 and tries < 60:
+    narrow = any(x[0] == "raw" and len(x) > 2 and x[2] in ("npf16", "npu8", "npi8", "npu16") for x in (rel[2], rel[3]))
+    while len(pts) < (8 if narrow else 4) and tries < 80:
         tries += 1
         pt = {n: round(rng.uniform(-2.0, 2.5), 3) for n in names}
+        if narrow and tries <= len(NARROW_POINTS):
+            pt = {n: NARROW_POINTS[tries - 1] + 0.25 * i for i, n in enumerate(names)}
         alg = R.FloatAlg(pt, pv)
         vals = [(float(l), float(r)) for l, r in elem_values(D, rel, alg)]
-        if all(np.isfinite(l) and np.isfinite(r) and abs(l - r) >= 1e-3 for l, r in vals) and alg.t.regular(1e-3):
+        if all(np.isfinite(l) and np.isfinite(r) and abs(l - r) >= 1e-3 for l, r in vals) and alg.t.regular(1e-3, 1e12 if narrow else 1e6):
             pts.append((pt, vals))
     if not pts:
         rec.noncomp["no-off-boundary-point"] += 1
@@ -286,6 +295,89 @@ def run_rel(rec, rng, cell, rel, decls, expect_mismatch, seams):
     rec.sample(show, cap=5)
 
 
+def run_multi(rec, rng, seams, rels, decls, cell):
+    """Several relations of different sense in one problem: every SciPy dict must belong to *its own* relation."""
+    import optyx
+
+    D = R.Decls(decls)
+    rec.case({"multi": rels, "d": decls})
+    show = {"decls": A.render_decls(decls), "relations": [A.render(r) for r in rels]}
+    names = D.all_var_names()
+    pv = D.param_values()
+    try:
+        b = B.Builder(decls)
+        P = optyx.Problem().minimize((b.variables([names[0]])[0] - 0.5) ** 2)
+        counts = []
+        for r in rels:
+            c = b.rel(r)
+            counts.append(len(c) if isinstance(c, list) else 1)
+            P.subject_to(c)
+    except Exception as ex:
+        rec.events["unsupported-build:" + type(ex).__name__] += 1
+        return
+    V = [v.name for v in P.variables]
+    seams.reset()
+    seams.min_stub = lambda call: OptimizeResult(x=np.array(call["x0"], dtype=float), success=False, status=9, message="stubbed", fun=0.0, nit=0)
+    try:
+        P.solve(method="SLSQP", x0=np.full(len(V), 0.7))
+    except Exception as ex:
+        rec.violation("solve-with-constraints-raises:" + type(ex).__name__, {"show": show, "error": repr(ex)[:200]})
+        return
+    finally:
+        seams.min_stub = None
+    dicts = list(seams.min_calls[0]["constraints"] or []) if seams.min_calls else []
+    rec.cmp(1, cell)
+    if len(dicts) != sum(counts):
+        rec.violation("wrong-number-of-scipy-constraints", {"show": show, "got": len(dicts), "want": sum(counts)})
+        return
+    for _ in range(4):
+        pt = {n: round(rng.uniform(-2.0, 2.5), 3) for n in names}
+        x = B.point_array(V, pt)
+        k = 0
+        for r in rels:
+            jalg = R.JetAlg(1, V, pt, pv)
+            for (l, rr) in elem_values(D, r, jalg):
+                diff = jalg.sub(l, rr)
+                dct = dicts[k]
+                k += 1
+                if not jalg.t.regular(1e-3) or not np.isfinite(float(diff.v)):
+                    continue
+                s = r[1]
+                f = float(dct["fun"](x.copy()))
+                jac = np.asarray(dct["jac"](x.copy()), dtype=float).reshape(-1)
+                sign = -1.0 if s == "<=" else 1.0
+                if s == "==":
+                    sign = 1.0 if abs(f - float(diff.v)) <= abs(f + float(diff.v)) else -1.0
+                rec.cmp(2, cell)
+                if dct.get("type") != ("eq" if s == "==" else "ineq") or not close(f, sign * float(diff.v), 1e-9, jalg.t.mag)[0]:
+                    rec.violation("scipy-fun-is-not-the-signed-difference-of-its-own-relation", {"show": show, "relation": A.render(r), "got": f, "want": sign * float(diff.v), "type": dct.get("type")})
+                    return
+                if not all(close(a_, b_, 1e-7, max(jalg.t.mag, jalg.t.dmag))[0] for a_, b_ in zip(jac, sign * diff.g)):
+                    rec.violation("scipy-jac-is-not-the-derivative-of-fun", {"show": show, "relation": A.render(r), "got": jac.tolist(), "want": (sign * diff.g).tolist()})
+                    return
+    rec.sample(show, cap=5)
+
+
+def multi_cases(rng):
+    """lists of relations mixing the three senses in every order"""
+    lin = ["bin", "+", _a, _b]
+    q_ = ["bin", "+", ["bin", "**", _a, ["raw", 2, "int"]], ["bin", "**", _b, ["raw", 2, "int"]]]
+    pool = {
+        "<=": [["rel", "<=", lin, ["raw", 2.0, "float"], "direct"], ["rel", "<=", q_, ["raw", 4.0, "float"], "direct"], ["rel", "<=", _x, ["arr", [1.0, 2.0, 3.0]], "direct"]],
+        ">=": [["rel", ">=", _a, ["raw", 0.5, "float"], "direct"], ["rel", ">=", ["sum", _x], _b, "direct"], ["rel", ">=", ["fn", "exp", _b], ["raw", 1.0, "float"], "reflected"]],
+        "==": [["rel", "==", ["bin", "-", _a, _b], ["raw", 0.25, "float"], "direct"], ["rel", "==", ["dot", _x, _y], ["raw", 1.0, "float"], "direct"]],
+    }
+    import itertools
+
+    out = []
+    for order in itertools.permutations(["<=", ">=", "=="]):
+        for rep in range(2):
+            out.append([rng.choice(pool[s]) for s in order])
+    for a_, b_ in itertools.permutations(["<=", ">=", "=="], 2):
+        out.append([rng.choice(pool[a_]), rng.choice(pool[a_]), rng.choice(pool[b_])])
+    return out
+
+
 def random_rel(rng):
     g = G.Gen(rng, params=(rng.random() < 0.3), bounds=False)
     r = rng.random()
@@ -332,6 +424,9 @@ def run(ctx, rec):
         for i, (cell, rel, mm) in enumerate(matrix_cases()):
             if ctx.mine(i):
                 run_rel(rec, rng, cell, rel, DV, mm, seams)
+        for i, rels in enumerate(multi_cases(rng)):
+            if ctx.mine(i):
+                run_multi(rec, rng, seams, rels, DV, "multi-relation-problem")
         n = 0
         while n < N_RANDOM[ctx.tier] and not rec.out_of_time():
             n += 1
